@@ -1562,10 +1562,30 @@ func (s *BgpServer) propagateUpdateToNeighbors(rib *table.TableManager, source *
 					}()
 				} else {
 					alreadySent := targetPeer.hasPathAlreadyBeenSent(newPath)
+					receivedPath := newPath
 					newPath := s.filterpath(targetPeer, newPath, nil)
 					// if the path is not filtered and the path has already been sent or land in the limit, we can send it
 					if newPath == nil {
 						bestList = []*table.Path{}
+						// the new version of the path may not be sent to this peer
+						targetPeer.unsetPathSendMaxFiltered(receivedPath)
+						if alreadySent {
+							// the peer holds the previous version under the same
+							// path identifier: withdraw it, and let a path held
+							// back by send-max take its place
+							bestList = append(bestList, receivedPath.Clone(true))
+							if destination := rib.GetDestination(receivedPath); destination != nil {
+								for _, p := range destination.GetKnownPathList(targetPeer.TableID(), targetPeer.AS()) {
+									p := s.filterpath(targetPeer, p, nil)
+									if p == nil || !targetPeer.unsetPathSendMaxFiltered(p) {
+										continue
+									}
+									bestList = append(bestList, p)
+									break
+								}
+							}
+							targetPeer.updateRoutes(bestList...)
+						}
 					} else if alreadySent || targetPeer.getRoutesCount(f, newPath.GetPrefix()) < targetPeer.getAddPathSendMax(f) {
 						bestList = []*table.Path{newPath}
 						if !alreadySent {
